@@ -9,7 +9,7 @@ import numpy as np
 import puan, puan.logic.plog as pg, puan.ndarray as pnd
 import puan.modules.configurator as cc
 from common import q, z, b, lst, opt
-from plogio import is_var, meta_term, dump, build, ModelGen, IdOracle, all_nodes
+from plogio import is_var, meta_term, dump, build, ModelGen, IdOracle, all_nodes, leaves_of
 
 # ----------------------------------------------------------------------------- deferred interning
 class DeferIt:
@@ -163,7 +163,7 @@ def poly_parts(P):
 
 # ----------------------------------------------------------------------------- the op language
 MODELLED = ("evaluate", "evalprops", "assume", "reduce", "negate", "errors", "flatten", "dump", "eqb", "poly")
-OBSERVE_ONLY = ("json", "text", "b64", "short", "variables", "taut")   # pure by C09; modelled as ODump
+OBSERVE_ONLY = ("json", "text", "b64", "short", "variables", "taut", "solve", "deepcopy")   # pure by C09; modelled as ODump
 
 def apply_op(obj, op):
     """run one call on the implementation; returns the raw answer or the exception"""
@@ -197,6 +197,12 @@ def apply_op(obj, op):
             return sdump(pg.from_b64(obj.to_b64()))
         if k == "short":
             return obj.to_short()
+        if k == "solve":                      # the built-in solver (solver=None); only what it leaves behind matters here
+            return [[sorted((str(i), int(v)) for i, v in (d or {}).items()), None if val is None else int(val), int(st)]
+                    for d, val, st in obj.solve([dict(o) for o in op["objs"]])]
+        if k == "deepcopy":
+            import copy
+            return sdump(copy.deepcopy(obj))
         if k == "variables":
             return obj.variables
         if k == "taut":
@@ -336,10 +342,15 @@ def gen_history(rng, g, objs, n, compound, allow_poly=True):
         elif r < 0.55:
             op = {"op": "assume", "obj": k, "d": gen_dict(rng, g, objs, k, compound and rng.random() < 0.7)}
         else:
-            kinds = ["reduce", "negate", "errors", "flatten", "dump", "eqb", "json", "text", "b64", "short", "variables"]
+            kinds = ["reduce", "negate", "errors", "flatten", "dump", "eqb", "json", "text", "b64", "short", "variables", "deepcopy"]
             if allow_poly:
                 kinds += ["poly", "poly"]
+                lv = leaves_of(objs[k]) if not is_var(objs[k]) else []
+                if 0 < len(lv) <= 8 and all(l.bounds.as_tuple() == (0, 1) for l in lv) and not objs[k].errors():
+                    kinds += ["solve", "solve"]
             op = {"op": rng.choice(kinds), "obj": k}
+            if op["op"] == "solve":
+                op["objs"] = [{l.id: rng.randint(-2, 3) for l in rng.sample(lv, rng.randint(1, len(lv)))} for _ in range(rng.randint(1, 2))]
             if op["op"] == "poly":
                 op["active"] = rng.random() < 0.5
         ops.append(op)
@@ -353,6 +364,7 @@ class CleanRef:
     else has ever been queried: a server is forked before the check touches the implementation and
     forks one short-lived child per job, so process-wide state (caches keyed on look-alike objects,
     finding D3) cannot contaminate the reference the way it contaminates an in-process rebuild."""
+    JOB_TIMEOUT = 30
     def __init__(self, handlers):
         self.handlers = handlers
         c2s_r, c2s_w = os.pipe()
@@ -403,8 +415,15 @@ class CleanRef:
                     finally:
                         os._exit(0)
                 os.close(pw)
+                import select, signal
                 with os.fdopen(pr, "rb") as f:
-                    out.append(self._recv(f))
+                    ready, _, _ = select.select([f], [], [], self.JOB_TIMEOUT)
+                    if ready:
+                        out.append(self._recv(f))
+                    else:                                    # the job did not come back (the built-in solver on some inputs)
+                        try: os.kill(pid, signal.SIGKILL)
+                        except Exception: pass
+                        out.append("job-timeout")
                 os.waitpid(pid, 0)
             self._send(wout, out)
 
